@@ -287,3 +287,37 @@ GENERATORS = {
     'C15': c15_cases,
     'C16': c16_cases,
 }
+
+
+def c12_cases(u, groups, rng, tier):
+    """schema = tags: (1) what internal/defs resolves for every struct of the universe equals what
+    the model's tag parser resolves; (2) behaviour of the equivalent spellings"""
+    out = []
+    for s in u.structs:
+        out.append(('(resolve %s)' % s.name, {'type': s.name, 'op': 'resolve', 'group': 'invalid' if s.invalid else 'valid'}))
+    k = 4 if tier == 'quick' else 40
+    for name in groups.get('spell', []):
+        r = rng.fork('c12' + name)
+        for j in range(k):
+            v = ValGen(u, r, big=False, max_depth=3).val(st(name))
+            out.append(('(rt %s ptr %s)' % (name, val_sx(v)), {'type': name, 'op': 'rt'}))
+            out.append(('(enc %s val %s)' % (name, val_sx(v)), {'type': name, 'op': 'enc'}))
+            w = mutate_tree(r, denote_py(u, st(name), v), [30000, 40, 41])
+            out.append(('(dec %s fresh %s)' % (name, hexs(put_py(w))), {'type': name, 'op': 'dec'}))
+    return out
+
+
+def c13_cases(u, groups, rng, tier):
+    out = []
+    for name in groups.get('invalid', []) + groups.get('invalid-nested', []):
+        out.append(('(resolve %s)' % name, {'type': name, 'op': 'resolve'}))
+        out.append(('(api3 %s)' % name, {'type': name, 'op': 'api3'}))
+    for name in groups.get('spell', []) + groups.get('structs', []) + groups.get('scalars', []):
+        out.append(('(api3 %s)' % name, {'type': name, 'op': 'api3-valid'}))
+    for kind in ['nil', 'int', 'string', 'ptrint', 'slice', 'map', 'ptrptr', 'nilptr', 'func']:
+        out.append(('(badarg %s)' % kind, {'type': 'Leaf', 'op': 'badarg', 'kind': kind}))
+    return out
+
+
+GENERATORS['C12'] = c12_cases
+GENERATORS['C13'] = c13_cases
